@@ -1,0 +1,215 @@
+//go:build verif
+
+package main
+
+// Verification bridge (build tag "verif" only): exposes the unexported decision
+// routines of this main package to the external verification harness.
+// It is driven by a JSON case file named by $VERIF_CASES and writes one JSON
+// result per case to $VERIF_OUT. It adds no behaviour to the production binary.
+
+import (
+	"encoding/json"
+	"flag"
+	"fmt"
+	"go/ast"
+	"go/parser"
+	"go/token"
+	"go/types"
+	"io"
+	"os"
+	"runtime"
+	"sync"
+	"testing"
+
+	"github.com/go-critic/go-critic/checkers"
+	"github.com/go-critic/go-critic/linter"
+)
+
+type verifCase struct {
+	Op string `json:"op"`
+	// select / params
+	Args     []string `json:"args,omitempty"`
+	Registry string   `json:"registry,omitempty"` // "probe", "real" or "all"
+	// shorten
+	Wd     string `json:"wd,omitempty"`
+	Gopath string `json:"gopath,omitempty"`
+	Goroot string `json:"goroot,omitempty"`
+	Loc    string `json:"loc,omitempty"`
+	// isgen
+	Src string `json:"src,omitempty"`
+}
+
+type verifResult struct {
+	Enabled     []string          `json:"enabled,omitempty"`
+	Constructed []string          `json:"constructed,omitempty"`
+	Err         string            `json:"err,omitempty"`
+	Panic       string            `json:"panic,omitempty"`
+	Str         string            `json:"str,omitempty"`
+	Bool        bool              `json:"bool,omitempty"`
+	Params      map[string]string `json:"params,omitempty"`
+	Defaults    []string          `json:"defaults,omitempty"`
+}
+
+var (
+	verifProbeOnce   sync.Once
+	verifConstructed []string
+	verifProbeFail   = map[string]bool{}
+)
+
+type verifNopWalker struct{}
+
+func (verifNopWalker) WalkFile(*ast.File) {}
+
+var verifProbeTags = []string{"diagnostic", "style", "performance", "experimental", "opinionated", "security"}
+
+// verifRegisterProbes registers one inert checker per subset of the six tags.
+func verifRegisterProbes() {
+	verifProbeOnce.Do(func() {
+		if err := checkers.InitEmbeddedRules(); err != nil {
+			panic(err)
+		}
+		var coll linter.CheckerCollection
+		for mask := 0; mask < 64; mask++ {
+			var tags []string
+			for i, t := range verifProbeTags {
+				if mask&(1<<i) != 0 {
+					tags = append(tags, t)
+				}
+			}
+			name := fmt.Sprintf("zzProbe%02d", mask)
+			info := &linter.CheckerInfo{Name: name, Tags: tags, Summary: "probe", Before: "x", After: "y"}
+			coll.AddChecker(info, func(*linter.CheckerContext) (linter.FileWalker, error) {
+				verifConstructed = append(verifConstructed, name)
+				if verifProbeFail[name] {
+					return nil, fmt.Errorf("probe %s refuses to initialize", name)
+				}
+				return verifNopWalker{}, nil
+			})
+		}
+	})
+}
+
+func verifInfoList(which string) []*linter.CheckerInfo {
+	all := linter.GetCheckersInfo()
+	var out []*linter.CheckerInfo
+	for _, info := range all {
+		isProbe := len(info.Name) > 7 && info.Name[:7] == "zzProbe"
+		switch which {
+		case "probe":
+			if isProbe {
+				out = append(out, info)
+			}
+		case "real":
+			if !isProbe {
+				out = append(out, info)
+			}
+		default:
+			out = append(out, info)
+		}
+	}
+	return out
+}
+
+func verifNewProgram(which string) *program {
+	var p program
+	p.flagSet = flag.NewFlagSet("go-critic", flag.ContinueOnError)
+	p.flagSet.SetOutput(io.Discard)
+	p.infoList = verifInfoList(which)
+	return &p
+}
+
+func verifRunCase(c *verifCase) (res verifResult) {
+	defer func() {
+		if r := recover(); r != nil {
+			res.Panic = fmt.Sprint(r)
+		}
+	}()
+	switch c.Op {
+	case "select", "params":
+		p := verifNewProgram(c.Registry)
+		steps := []func() error{
+			p.bindCheckerParams,
+			p.bindDefaultEnabledList,
+			func() error { return p.parseArgs(c.Args) },
+			p.assignCheckerParams,
+		}
+		for _, fn := range steps {
+			if err := fn(); err != nil {
+				res.Err = "args: " + err.Error()
+				return res
+			}
+		}
+		res.Defaults = p.filters.defaultCheckers
+		if c.Op == "params" {
+			res.Params = map[string]string{}
+			for _, info := range p.infoList {
+				for pname, param := range info.Params {
+					res.Params[info.Name+"."+pname] = fmt.Sprintf("%T:%v", param.Value, param.Value)
+				}
+			}
+			return res
+		}
+		p.fset = token.NewFileSet()
+		p.ctx = linter.NewContext(p.fset, types.SizesFor("gc", runtime.GOARCH))
+		verifConstructed = nil
+		err := p.initCheckers()
+		if err != nil {
+			res.Err = err.Error()
+		}
+		for _, ch := range p.checkers {
+			res.Enabled = append(res.Enabled, ch.Info.Name)
+		}
+		res.Constructed = append([]string(nil), verifConstructed...)
+	case "shorten":
+		p := &program{workDir: c.Wd, gopath: c.Gopath, goroot: c.Goroot}
+		res.Str = p.shortenLocation(c.Loc)
+	case "slash":
+		res.Str = addTrailingSlash(c.Loc)
+	case "isgen":
+		fset := token.NewFileSet()
+		f, err := parser.ParseFile(fset, "x.go", c.Src, parser.ParseComments)
+		if err != nil {
+			res.Err = err.Error()
+			return res
+		}
+		p := &program{fset: fset}
+		res.Bool = p.isGenerated(f)
+	case "failprobe":
+		verifProbeFail = map[string]bool{}
+		for _, n := range c.Args {
+			verifProbeFail[n] = true
+		}
+	default:
+		res.Err = "unknown op " + c.Op
+	}
+	return res
+}
+
+func TestVerifBridge(t *testing.T) {
+	casesPath := os.Getenv("VERIF_CASES")
+	outPath := os.Getenv("VERIF_OUT")
+	if casesPath == "" || outPath == "" {
+		t.Skip("VERIF_CASES / VERIF_OUT not set")
+	}
+	verifRegisterProbes()
+	data, err := os.ReadFile(casesPath)
+	if err != nil {
+		t.Fatal(err)
+	}
+	var cases []verifCase
+	if err := json.Unmarshal(data, &cases); err != nil {
+		t.Fatal(err)
+	}
+	out, err := os.Create(outPath)
+	if err != nil {
+		t.Fatal(err)
+	}
+	defer out.Close()
+	enc := json.NewEncoder(out)
+	for i := range cases {
+		res := verifRunCase(&cases[i])
+		if err := enc.Encode(res); err != nil {
+			t.Fatal(err)
+		}
+	}
+}
